@@ -73,13 +73,14 @@ def schedule(rng, ops, density):
     for op in ops:
         out.append(op)
         while rng.random() < density:
-            out.append({'op': rng.choice(['force', 'force', 'walk', 'write', 'listroot'])})
+            out.append({'op': rng.choice(['force', 'force', 'walk', 'write', 'listroot', 'lookup', 'lookup'])})
     return out
 
 
 def run_schedule(ctx, cfg, sched, ac, rp):
     """returns (image bytes or None, per-op results)"""
     results = []
+    known = set()
     with isoapi.frozen_time():
         iso = isoapi.new_iso(cfg, always_consistent=ac)
         for op in sched:
@@ -97,6 +98,21 @@ def run_schedule(ctx, cfg, sched, ac, rp):
                 except Exception:
                     pass
                 continue
+            if o == 'lookup':
+                # read-only queries of every path the history has mentioned so far, in every namespace
+                for key, pth in sorted(known):
+                    try:
+                        rec = iso.get_record(**{key: pth})
+                        if rec.is_dir():
+                            list(iso.list_children(**{key: pth}))
+                    except Exception:
+                        pass
+                continue
+            for k2, key in (('iso', 'iso_path'), ('joliet', 'joliet_path'), ('udf', 'udf_path')):
+                if op.get(k2):
+                    known.add((key, op[k2]))
+                    if '/' in op[k2].strip('/'):
+                        known.add((key, op[k2].rsplit('/', 1)[0]))
             res = isoapi.apply_op(iso, op)
             if o in MUTATING:
                 results.append(res)
@@ -175,7 +191,7 @@ def query_oracle(ctx, cfg, ops, tmpdir, rp):
                 ctx.violation('C06.query/file', 'after force_consistency get_record(%r) reports (%d,%d), the image has (%d,%d)' % (p, ext, ln, fext, flen), rp)
 
 
-def run_case(ctx, rng, cfg, ops, tmpdir):
+def run_case(ctx, rng, cfg, ops, tmpdir, dense=False):
     rp = {'kind': 'history', 'cfg': cfg, 'ops': ops}
     base, res0 = run_schedule(ctx, cfg, ops, False, rp)
     if base is None:
@@ -184,9 +200,17 @@ def run_case(ctx, rng, cfg, ops, tmpdir):
         return
     h0 = hashlib.sha256(base).hexdigest()
     k = 4 if ctx.quick else 12
-    for j in range(k):
+    fixed = []
+    if dense:
+        # directed histories: a query / a recomputation after every single edit, in both modes
+        for extra in ('lookup', 'force', 'walk'):
+            fixed.append([x for op in ops for x in (op, {'op': extra})])
+    for j in range(k + 2 * len(fixed)):
         ac = (j % 2 == 1)
-        sched = schedule(rng, ops, rng.choice([0.15, 0.4, 0.7]))
+        if j >= k:
+            sched = fixed[(j - k) // 2]
+        else:
+            sched = schedule(rng, ops, rng.choice([0.15, 0.4, 0.7]))
         img, res = run_schedule(ctx, cfg, sched, ac, rp)
         nontriv = len(sched) > len(ops) or ac
         ctx.count(key=(repr(sorted(cfg.items())), repr(sched), ac), nontrivial=nontriv, kind='mode:%s' % ('ac' if ac else 'lazy'),
@@ -210,7 +234,7 @@ def run(ctx):
         for cfg in c01.directed_cfgs(ctx, None)[:4 if ctx.quick else 12]:
             for label, ops in gen.directed(cfg):
                 ctx.dist['family:directed:%s' % label.split('-')[0]] += 1
-                run_case(ctx, random.Random(11), cfg, ops, tmpdir)
+                run_case(ctx, random.Random(11), cfg, ops, tmpdir, dense=True)
         n = 60 if ctx.quick else 1500
         for _ in range(n):
             seed = ctx.rng.randrange(2 ** 62)
